@@ -17,6 +17,7 @@ KINDS = {
     "MeasureHomodyne": ["angle", "select"], "MeasureHeterodyne": ["cselect"],
     "Kgate": ["real"], "Vgate": ["real"], "CKgate": ["real"],
     "sMZgate": ["angle", "angle"],
+    "MSgate": ["sq", "halfangle", "sq", "real"],
     "Del": [], "New": [], "GaussianTransform": ["matrix"], "Interferometer": ["cmatrix"],
 }
 
@@ -63,6 +64,8 @@ def mk_op(o):
     if name == "Kgate":
         op = ops.Kgate(float(fr(p[0])))
         return op.H if o.get("dag") else op
+    if name == "MSgate":        # average map; the abstract angle is half the squeezing phase
+        return ops.MSgate(to_float("sq", p[0]), 2 * to_float("angle", p[1]), to_float("sq", p[2]), float(fr(p[3])), avg=True)
     args = [to_float(k, v) for k, v in zip(kinds, p)]
     op = getattr(ops, name)(*args)
     if o.get("dag"):
